@@ -2,8 +2,8 @@
 from ..rules_codec import codec_peewee, codec_sqlite
 from ..rules_commit import check_no_rollback
 from ..rules_own import own_rules
-from ..rules_read import last_rule
-from ..rules_store import addr_rule, ddl_facts, idalloc_memory, scope_memory, scope_peewee, scope_sqlite, upsert_rule, forward_bucket
+from ..rules_read import count_source, last_rule
+from ..rules_store import instance_state, addr_rule, ddl_facts, idalloc_memory, scope_memory, scope_peewee, scope_sqlite, upsert_rule, forward_bucket
 
 METHODS = {"delete", "replace", "get_event", "insert_one", "insert_many", "replace_last", "get_events", "get_eventcount"}
 
@@ -18,6 +18,7 @@ def check(prog, rep):
     )
     rep.trusted_base = ["SQL semantics of the modelled subset", "peewee builder translation", "AUTOINCREMENT / AutoField never re-issue an id"]
     rep.not_decided = ["equality with the reference list model over all histories (multiset equality, counts)"]
+    instance_state(prog, rep)
     last_rule(prog, rep)
     scope_sqlite(prog, rep, methods=METHODS)
     scope_peewee(prog, rep, methods=METHODS)
@@ -37,6 +38,7 @@ def check(prog, rep):
 
     bucket_insert(prog, rep)
     check_no_rollback(prog, rep)
+    count_source(prog, rep)
     # observation only: single insert of an id-bearing event differs between backends
     rep.note("sibling cross-check (observation, not a rule): a single insert of an id-bearing event is an upsert in memory and peewee but a plain INSERT that ignores the id in sqlite; the property speaks of bulk upsert only")
 
